@@ -77,6 +77,43 @@ def render_extxyz(rng, n):
     return texts
 
 
+def render_sdf(rng, n):
+    """SDF molecules as other programs write them: blank name lines, program/comment lines, properties."""
+    texts = []
+    for k in range(n):
+        natom = rng.randint(1, 5)
+        style = rng.choice(["named", "blank-name", "blank-name-comment", "all-blank"])
+        l1 = f"mol{k}" if style == "named" else ""
+        l2 = "  RDKit          3D" if style in ("named", "blank-name") else ""
+        l3 = "a comment" if style == "blank-name-comment" else ""
+        nbond = natom - 1
+        lines = [l1, l2, l3, f"{natom:3d}{nbond:3d}  0  0  0  0  0  0  0  0999 V2000"]
+        for i in range(natom):
+            x, y, z = (round(rng.uniform(-9, 9), 4) for _ in range(3))
+            lines.append(f"{x:10.4f}{y:10.4f}{z:10.4f} {rng.choice(['C', 'H', 'O', 'N', 'Cl']):<3s} 0  0  0  0  0  0  0  0  0  0  0  0")
+        for i in range(nbond):
+            lines.append(f"{i + 1:3d}{i + 2:3d}{rng.choice([1, 2, 3]):3d}  0")
+        lines.append("M  END")
+        if rng.random() < 0.5:
+            lines += [">  <PROP>", f"{k}", ""]
+        lines.append("$$$$")
+        texts.append("\n".join(lines) + "\n")
+    return texts
+
+
+def render_xyz(rng, n):
+    texts = []
+    for k in range(n):
+        natom = rng.randint(1, 5)
+        title = rng.choice(["", f"frame {k}", str(natom), "  "])
+        lines = [f"{natom}", title]
+        for i in range(natom):
+            x, y, z = (round(rng.uniform(-9, 9), 5) for _ in range(3))
+            lines.append(f"{rng.choice(['C', 'H', 'O', 'N']):2s} {x:12.5f} {y:12.5f} {z:12.5f}")
+        texts.append("\n".join(lines) + "\n")
+    return texts
+
+
 def classify_fragment(fmt, frag):
     """What the lines left over after the last complete frame are: none | cut | skip."""
     if all(ln.strip() == "" for ln in frag):
@@ -237,7 +274,7 @@ def build_sequence(args):
     dump_trace = None
     tmp = tempfile.mkdtemp(prefix="c13b_")
     try:
-        if fmt in O.DUMP_MANY:
+        if fmt in O.DUMP_MANY and gen_kind != "rendered":
             objs = writer_frames(fmt, rng, n)
             texts = []
             with warnings.catch_warnings():
@@ -262,7 +299,7 @@ def build_sequence(args):
                    "fd": tr.open_handles() > 0, "warned": False, "complete": full == "".join(texts), "ret": "none"}
             dump_trace = [{"sc": sc}] + tr.events + [end]
         else:
-            texts = render_gro(rng, n) if fmt == "gromacs" else render_extxyz(rng, n)
+            texts = {"gromacs": render_gro, "extxyz": render_extxyz, "sdf": render_sdf, "xyz": render_xyz}[fmt](rng, n)
             full = "".join(texts)
         singles = [single_digest(fmt, t) for t in texts]
         cw = CUT_WARNS.get(fmt, False)
@@ -372,6 +409,9 @@ def check(run: Run):
                 if fmt not in O.DUMP_MANY and rep > 0 and not run.thorough():
                     continue
                 seqs.append((fmt, n, rng.randint(0, 10**9), run.thorough() and n <= 8, gk))
+            if fmt in ("sdf", "xyz"):
+                for rep in range(run.pick(2, 4)):
+                    seqs.append((fmt, n, rng.randint(0, 10**9), run.thorough() and n <= 8, "rendered"))
     built = pmap(build_sequence, seqs, chunksize=1)
     dump_traces, dump_infos, tasks = [], [], []
     for (fmt, n, seed, th, gk), (dt, ts) in zip(seqs, built):
